@@ -248,13 +248,22 @@ fn main() -> ! {
         for pair in pairs {
             match pair.as_rule() {
                 Rule::statement => {
-                    if let Some(inner_pair) = pair.into_inner().next() {
+                    let mut inner_pairs = pair.into_inner();
+                    // A statement can be followed by an end-of-line comment
+                    let first_pair = inner_pairs.next();
+                    let eol_comment = inner_pairs
+                        .next()
+                        .filter(|p| p.as_rule() == Rule::comment)
+                        .map(|p| format!("  {}", p.as_str()))
+                        .unwrap_or_default();
+                    if let Some(inner_pair) = first_pair {
                         match inner_pair.as_rule() {
                             Rule::expression => {
                                 match pairs_to_expr_with_comments(inner_pair.into_inner()) {
                                     Ok(expr) => {
                                         let formatted = format_expr(&expr, None);
                                         formatted_output.push_str(&formatted);
+                                        formatted_output.push_str(&eol_comment);
                                         formatted_output.push('\n');
                                     }
                                     Err(e) => {
@@ -272,6 +281,7 @@ fn main() -> ! {
                                         });
                                         let formatted = format_expr(&output_expr, None);
                                         formatted_output.push_str(&formatted);
+                                        formatted_output.push_str(&eol_comment);
                                         formatted_output.push('\n');
                                     }
                                     Err(e) => {
@@ -283,6 +293,7 @@ fn main() -> ! {
                             Rule::comment => {
                                 // Preserve comments as-is
                                 formatted_output.push_str(inner_pair.as_str());
+                                formatted_output.push_str(&eol_comment);
                                 formatted_output.push('\n');
                             }
                             _ => {}
